@@ -1,2 +1,8 @@
 import Lmd.Props.C01
 #print axioms Lmd.C01.matchF_eq_sem
+#print axioms Lmd.C01.allF_eq
+#print axioms Lmd.C01.anyF_eq
+#print axioms Lmd.C01.matchAll_eq_semList
+#print axioms Lmd.C01.nested_negate_counterexample
+#print axioms Lmd.C01.gatherRows_scan_eq_filter
+#print axioms Lmd.C01.hit_values_unchanged
